@@ -126,12 +126,12 @@ def isHex (c : UInt8) : Bool := (48 ≤ c && c ≤ 57) || (65 ≤ c && c ≤ 70)
 def hexDigitVal (c : UInt8) : Nat := if c ≤ 57 then c.toNat - 48 else (c.toNat &&& 7) + 9
 def toLowerB (c : UInt8) : UInt8 := if 65 ≤ c && c ≤ 90 then c + 32 else c
 
-def infStr : Bytes := strBytes "Infinity"
-def infStrInvert : Bytes := strBytes "iNFINITY"
-def nullStr : Bytes := strBytes "null"
-def nanStr : Bytes := strBytes "NaN"
-def trueStr : Bytes := strBytes "true"
-def falseStr : Bytes := strBytes "false"
+def infStr : Bytes := [73, 110, 102, 105, 110, 105, 116, 121]   -- "Infinity"
+def infStrInvert : Bytes := [105, 78, 70, 73, 78, 73, 84, 89]   -- "iNFINITY"
+def nullStr : Bytes := [110, 117, 108, 108]   -- "null"
+def nanStr : Bytes := [78, 97, 78]   -- "NaN"
+def trueStr : Bytes := [116, 114, 117, 101]   -- "true"
+def falseStr : Bytes := [102, 97, 108, 115, 101]   -- "false"
 def replacement : Bytes := [0xEF, 0xBF, 0xBD]
 
 /-- `strncmp(kw, buf, n) == 0` resp. `strncasecmp` where `buf` is the NUL-terminated printbuf
@@ -165,17 +165,13 @@ def addOrReplace (kvs : List (Bytes × JVal)) (k : Bytes) (v : JVal) : List (Byt
 def cstr (b : Bytes) : Bytes := b.takeWhile (· != 0)
 
 /-- UTF-8 encoding as the escape_unicode state emits it -/
-def utf8Of (u : Nat) : Bytes :=
-  if u < 0x80 then [UInt8.ofNat u]
-  else if u < 0x800 then [UInt8.ofNat (0xC0 ||| (u >>> 6)), UInt8.ofNat (0x80 ||| (u &&& 0x3F))]
-  else if u < 0x10000 then
-    [UInt8.ofNat (0xE0 ||| (u >>> 12)), UInt8.ofNat (0x80 ||| ((u >>> 6) &&& 0x3F)), UInt8.ofNat (0x80 ||| (u &&& 0x3F))]
-  else
-    [UInt8.ofNat (0xF0 ||| ((u >>> 18) &&& 7)), UInt8.ofNat (0x80 ||| ((u >>> 12) &&& 0x3F)),
-     UInt8.ofNat (0x80 ||| ((u >>> 6) &&& 0x3F)), UInt8.ofNat (0x80 ||| (u &&& 0x3F))]
+def utf8Of (u : Nat) : Bytes := utf8Encode u
 
-def isHighSurrogate (u : Nat) : Bool := u &&& 0xFFFFFC00 == 0xD800
-def isLowSurrogate (u : Nat) : Bool := u &&& 0xFFFFFC00 == 0xDC00
+/-- IS_HIGH_SURROGATE(uc) = ((uc & 0xFFFFFC00) == 0xD800) on the 32-bit `ucs_char`: the mask clears the
+low ten bits, i.e. the test is `uc / 1024 * 1024 == 0xD800` (written arithmetically so that `omega`
+can reason about it; the harness exercises all 65536 units and the pair grid against the C macro) -/
+def isHighSurrogate (u : Nat) : Bool := u / 1024 * 1024 == 0xD800
+def isLowSurrogate (u : Nat) : Bool := u / 1024 * 1024 == 0xDC00
 def decodePair (hi lo : Nat) : Nat := ((hi &&& 0x3FF) <<< 10) + (lo &&& 0x3FF) + 0x10000
 
 /-! ### libc on the saved number text -/
